@@ -163,13 +163,15 @@ def only_trivia(R, ctx):
 def effects(R, ctx, fams):
     rid = "C18.effects"
     R.rule(rid, "inside the remove_comments / remove_spaces walker families nothing is assigned and no container mutator "
-                "is called, except Vec::retain on Token trivia inside Token::W (so code tokens cannot change)")
+                "is called, except Vec::retain on a list whose static type is one of Token's trivia lists (so code tokens cannot change)")
     n_fn = 0
+    token_adt = ctx.lib.adts.get("nodes::token::Token")
+    trivia_vecs = {f["tys"] for v in (token_adt or {}).get("variants", []) for f in v["fields"] if f["tys"].startswith("alloc::vec::Vec<")}
+    R.require(rid, "token-trivia-lists", bool(trivia_vecs), "src/nodes/token.rs", "Token's trivia list types: %s" % sorted(trivia_vecs))
     for W, fam in fams.items():
         for p in fam.scope:
             fn = ctx.lib.fns[p]
             n_fn += 1
-            in_token_w = p in ("nodes::token::Token::" + w for w in W3)
             bad = []
             for n in thir.walk(thir.body_of(fn)):
                 k = n.get("k")
@@ -183,7 +185,9 @@ def effects(R, ctx, fams):
                     if through:
                         bad.append(("assign", n.get("ln")))
                 elif k == "Call" and n.get("fname") in STD_MUTATORS and not callee_of(n) in ctx.lib.fns:
-                    if in_token_w and n["fname"] in ("retain", "retain_mut"):
+                    if n["fname"] in ("retain", "retain_mut") and n["args"] and "t" in n["args"][0] and \
+                            ctx.lib.ty_str(ctx.lib.strip_refs(n["args"][0]["t"])) in trivia_vecs:
+                        # dropping elements of a trivia list: whatever the caller, no code token can change
                         continue
                     # mutators applied to locals that do not derive from the AST are fine
                     a = ctx.an.fa(p)
